@@ -68,7 +68,9 @@ void harness(void) {
 #endif
 #ifdef VL_MODE_IDX
 void harness(void) { VL_CALL(KSI_VerificationRule_AggregationHashChainIndexContinuation) VL_CHECK(vl_exp_walk(info, 1, SPEC_VERR_INT(12))) VL_REACH_FAIL(KSI_VER_ERR_INT_12, "FAIL INT-12")
+#ifndef VL_PLAIN   /* deep vacuity guard only in the proved job: an unreachable REACH makes a run "undecided" (exit 2) and would mask the failed obligations of a broken tree in the quick tier */
 	if (res == KSI_OK && result->resultCode == KSI_VER_RES_OK && g_vl_calls >= 2 && g_vi_calls >= 2) REACH("OK with two or more common index positions");
+#endif
 	if (res == KSI_OK && result->resultCode == KSI_VER_RES_FAIL && g_vi_calls > 0) REACH("FAIL INT-12 on an index element");
 }
 #endif
